@@ -8,6 +8,7 @@ import Unsized.AccessLemmasFail
 import Unsized.PtrMachine
 import Unsized.PtrChainNotify
 import Unsized.PtrChainNav
+import Unsized.PtrHonestM16
 /-!
 # C03 — Resizing never reads or writes outside the account's allocation; swapped accessors are detected
 
@@ -423,21 +424,18 @@ theorem get_ptr_canonical (s : Shape) (v : Val) (rest : List Nat) (base : Nat) (
     getPtr s (encode s v ++ rest) base = .ok (Unsized.Ptr.treeOf s v base, size s v) :=
   Unsized.Ptr.getPtr_encode s v rest base g ht
 
-/-- **ptrs_fresh (one notification).** `chainOf s v b p` is the top pointer object after taking the live
+/-- **ptrs_fresh_notify (one notification).** `chainOf s v b p` is the top pointer object after taking the live
 accessors along `p` on canonical bytes of `v` (every `UnsizedList` on the way holds the cached, armed
 pointer of the entered element; everything else is `get_ptr` of its bytes). When the sub-value at `p`
 changes its size by `±amt` (bytes after the move, enclosing headers still stale — the snapshot of the
 `notify` event), the `resize_notification` broadcast turns it into `chainOf` of the NEW value: every live
 pointer, cached inner pointers included, equals a fresh `get_ptr` of the new bytes at its place.
 
-Full statement (DESIGN): "after every step each live pointer tree equals `getPtr` of the new bytes".
-Proved: the notification step, for every shape / value / path (hypothesis `hself`: the resized node's own
-pointer reacts correctly to its own notification — discharged for leaf pointers and lists by
-`Ptr.self_notify_leaf/_ulist/_umap`). Missing, hence `_partial`: the composition with the op-level epilogue
-of the pointer machine (`opAt`: length metadata, replaced pointer after `set_data_inner`, stale non-live
-caches left by `insert`) into an invariant of `PtrM` runs; that part is tied differentially only (the
-driver takes every offset from the pointer tree). -/
-theorem ptrs_fresh_partial (p : List Step) (s : Shape) (v : Val) (t : Shape) (u u' : Val) (g : Good s v)
+This is the notification step on its own, for every shape / value / path (hypothesis `hself`: the resized
+node's own pointer reacts correctly to its own notification — discharged for leaf pointers and lists by
+`Ptr.self_notify_leaf/_ulist/_umap`). Its composition with the prologue / epilogue of the pointer machine
+into an invariant of runs is `ptrs_fresh_partial` below. -/
+theorem ptrs_fresh_notify (p : List Step) (s : Shape) (v : Val) (t : Shape) (u u' : Val) (g : Good s v)
     (hu : s ≠ .unit) (hz : s.zst = false) (g' : Good s (subst s v p u')) (h : resolve s v p = .ok (t, u))
     (pre post : List Nat) (b src : Nat) (neg : Bool) (amt : Nat)
     (hb : b = pre.length) (hX : (encode t u').length = applyDelta neg amt (encode t u).length)
@@ -457,5 +455,53 @@ theorem live_levels_located (s : Shape) (v : Val) (q r : List Step) (tq : Shape)
     ∃ tp, PtrM.locTree s (Unsized.Ptr.chainOf s v b (q ++ r)) q
       = some (tp, tq, Unsized.Ptr.chainOf tq uq (b + offsetOf s v q) r) :=
   Unsized.Ptr.locTree_chainOf s v q r tq uq t u b g hq hr
+
+/-! ### ptrs_fresh for runs of the pointer machine (b-machine, `Unsized/PtrHonest*.lean`) -/
+
+/-- The pointer-machine invariant holds right after `ExclusiveWrapper::new` (the state the driver's `mkBuf`
+builds: canonical bytes, `top_mut = get_ptr`, one live level). -/
+theorem ptrs_fresh_init (s : Shape) (v : Val) (base : Nat) (B : PtrM.PBuf) (hok : s.ok = true)
+    (hnd : ∀ d i, s ≠ .disc d i) (hwf : WF s v = true)
+    (hsmall : (encode s v).length + maxIncrease < Shape.u32Lim)
+    (hfar : (encode s v).length + maxIncrease ≤ base)
+    (hbig : base + 2 * ((encode s v).length + maxIncrease) < Shape.usizeLim) :
+    Unsized.Ptr.PInv s ⟨⟨⟨encode s v, (encode s v).length, 0, []⟩, base, Unsized.Ptr.treeOf s v base, [[]], false, false⟩, B⟩ v :=
+  Unsized.Ptr.pinv_init s v base B hok hnd hwf hsmall hfar hbig
+
+/-- **ptrs_fresh (runs).** `PInv s w v`: buffer A of the world holds the canonical bytes of `v`, and its top
+pointer object is HONEST for `v` along every live level — every pointer on the chain of live accessors,
+every cached `inner_exclusive` pointer included, equals `get_ptr` of the current bytes at its place (or is a
+uniformly shifted stale cache that lies inside its list's range), and `locTree` finds each live level.
+From such a world, after ANY history of `enter` / `leave` / `reborrow` / op lines executed by the functions the
+C03 driver runs (`PtrM.execEnter/execLeave/execReborrow/execOp`, i.e. `walk`, `runPre`, `runEvs`, `opAt`),
+the invariant holds again and NO line panicked.
+
+Full statement: for every history. Proved for histories satisfying `HistOkP` = at every op line (i) C01's
+`CmdOk` at node level (a successful model step stays below `orig + 10240`; a failing one is not the registered
+"initialiser fails behind the resize" finding) and (ii) `Covered`: the op is not one of the three COMPOSITE
+ops (`UnsizedString::set`, `Set::insert_all`, `Map::insert_all` — several notifications per call; not yet
+composed), and for `UnsizedMap::insert` on an existing key the element's `start_ptr` is defined (always, for
+the curated shapes). Hence `_partial`. For the composites the tie stays differential. -/
+theorem ptrs_fresh_partial (s : Shape) (cmds : List Cmd) (w : PtrM.World) (v : Val)
+    (inv : Unsized.Ptr.PInv s w v) (hok : Unsized.Ptr.HistOkP s w cmds) :
+    (∀ a ∈ (Unsized.Ptr.prun s w cmds).2, Unsized.Ptr.isPanic a = false) ∧
+    ∃ v', Unsized.Ptr.PInv s (Unsized.Ptr.prun s w cmds).1 v' :=
+  Unsized.Ptr.ptrs_fresh_history s cmds w v inv hok
+
+/-- One line (the induction step of `ptrs_fresh_partial`). -/
+theorem ptrs_fresh_step_partial {s : Shape} {w : PtrM.World} {v : Val} (inv : Unsized.Ptr.PInv s w v) (c : Cmd)
+    (hok : Unsized.Ptr.LineOk s w c) :
+    Unsized.Ptr.isPanic (Unsized.Ptr.pstep s w c).2 = false ∧ ∃ v', Unsized.Ptr.PInv s (Unsized.Ptr.pstep s w c).1 v' :=
+  Unsized.Ptr.ptrs_fresh_step inv c hok
+
+/-- **checkTop_passes.** Honest histories never trip the pointer checks: after any history as above,
+`check_pointers` of the top pointer object against the allocation range is `true` — so neither the
+`debug_assert!`s at the head of `add_bytes` / `remove_bytes` nor `ExclusiveTopDrop::drop` fire (`X end` answers
+`ok`), in contrast to `swap_detected`. (Same `HistOkP` side condition, hence `_partial`.) -/
+theorem checkTop_passes_partial (s : Shape) (cmds : List Cmd) (w : PtrM.World) (v : Val)
+    (inv : Unsized.Ptr.PInv s w v) (hok : Unsized.Ptr.HistOkP s w cmds) :
+    checkTop (Unsized.Ptr.prun s w cmds).1.a.rng (Unsized.Ptr.prun s w cmds).1.a.root = true
+    ∧ (PtrM.endBuf (Unsized.Ptr.prun s w cmds).1 .A).2 = true :=
+  Unsized.Ptr.checkTop_passes s cmds w v inv hok
 
 end Unsized.C03
